@@ -18,6 +18,7 @@ pub fn run(rep: &Report) -> u64 {
 }
 
 pub fn explore(ex: &Ex) {
+    super::short_strings(ex, "c10.bytes", &[(Ty::Key, Entry::Slice), (Ty::KeySet, Entry::Slice)], ex.pick(1usize, 2, 3));
     let pairs = gen::key_pairs();
     let depth = ex.pick(2usize, 3, 4);
     map_tree(ex, "c10.maps", &pairs, depth, &|map, d, l| {
